@@ -46,6 +46,9 @@ static struct {
   struct timespec abstime; int timedwait_called;
 } S;
 static int cond_clock = -1;
+/* fault injection state (see the init interposers below) */
+static const char* inj_name; static int inj_rc, inj_hits, live_objs, cfg_applied;
+#define INJECT(nm) if (inj_name && !strcmp(inj_name, nm)) { inj_hits++; return inj_rc; }
 
 static sigjmp_buf abort_jb;
 static volatile int abort_armed;
@@ -77,6 +80,7 @@ EARLY int getrlimit64(__rlimit_resource_t res, struct rlimit64* lim) {
   lim->rlim_cur = c; lim->rlim_max = m; return 0;
 }
 int pthread_attr_setstacksize(pthread_attr_t* a, size_t n) {
+  INJECT("attr_setstacksize")
   if (!scripted) { fprintf(stderr, "unexpected pthread_attr_setstacksize\n"); _exit(3); }
   S.setstack_called++; S.setstack_val = n; return 0;
 }
@@ -120,21 +124,47 @@ int nanosleep(const struct timespec* req, struct timespec* rem) {
   }
   return (int) syscall(SYS_nanosleep, req, rem);
 }
+/* fault injection into the setup calls of the init wrappers: the named call answers inj_rc
+ * (and does nothing) while inj_name is set */
+int pthread_condattr_init(pthread_condattr_t* a) { INJECT("condattr_init") REAL(int, pthread_condattr_init, pthread_condattr_t*) return real(a); }
+int pthread_condattr_destroy(pthread_condattr_t* a) { INJECT("condattr_destroy") REAL(int, pthread_condattr_destroy, pthread_condattr_t*) return real(a); }
+int pthread_cond_init(pthread_cond_t* c, const pthread_condattr_t* a) {
+  INJECT("cond_init") REAL(int, pthread_cond_init, pthread_cond_t*, const pthread_condattr_t*)
+  int r = real(c, a); if (r == 0) live_objs++; return r;
+}
+int pthread_mutexattr_init(pthread_mutexattr_t* a) { INJECT("mutexattr_init") REAL(int, pthread_mutexattr_init, pthread_mutexattr_t*) return real(a); }
+int pthread_mutexattr_destroy(pthread_mutexattr_t* a) { INJECT("mutexattr_destroy") REAL(int, pthread_mutexattr_destroy, pthread_mutexattr_t*) return real(a); }
+int pthread_mutexattr_settype(pthread_mutexattr_t* a, int t) {
+  INJECT("mutexattr_settype") REAL(int, pthread_mutexattr_settype, pthread_mutexattr_t*, int)
+  int r = real(a, t); if (r == 0 && t == PTHREAD_MUTEX_RECURSIVE) cfg_applied = 1; return r;
+}
+int sem_init(sem_t* s, int sh, unsigned v) {
+  if (inj_name && !strcmp(inj_name, "sem_init")) { inj_hits++; errno = inj_rc; return -1; }
+  REAL(int, sem_init, sem_t*, int, unsigned) int r = real(s, sh, v); if (r == 0) live_objs++; return r;
+}
+int pthread_barrier_init(pthread_barrier_t* b, const pthread_barrierattr_t* a, unsigned n) {
+  INJECT("barrier_init") REAL(int, pthread_barrier_init, pthread_barrier_t*, const pthread_barrierattr_t*, unsigned)
+  int r = real(b, a, n); if (r == 0) live_objs++; return r;
+}
+EARLY int pthread_attr_init(pthread_attr_t* a) { INJECT("attr_init") REAL(int, pthread_attr_init, pthread_attr_t*) return real(a); }
 /* attributes libuv hands to the *_init calls */
 static int last_rwlock_kind = -2, last_mutex_type = -2;
 EARLY int pthread_rwlock_init(pthread_rwlock_t* l, const pthread_rwlockattr_t* a) {
   int k = -1; if (a) pthread_rwlockattr_getkind_np(a, &k);
   last_rwlock_kind = k;
-  REAL(int, pthread_rwlock_init, pthread_rwlock_t*, const pthread_rwlockattr_t*) return real(l, a);
+  INJECT("rwlock_init")
+  REAL(int, pthread_rwlock_init, pthread_rwlock_t*, const pthread_rwlockattr_t*) int r = real(l, a); if (r == 0) live_objs++; return r;
 }
 EARLY int pthread_mutex_init(pthread_mutex_t* m, const pthread_mutexattr_t* a) {
   int t = -1; if (a) pthread_mutexattr_gettype(a, &t);
   last_mutex_type = t;
-  REAL(int, pthread_mutex_init, pthread_mutex_t*, const pthread_mutexattr_t*) return real(m, a);
+  INJECT("mutex_init")
+  REAL(int, pthread_mutex_init, pthread_mutex_t*, const pthread_mutexattr_t*) int r = real(m, a); if (r == 0) live_objs++; return r;
 }
 int pthread_condattr_setclock(pthread_condattr_t* a, clockid_t c) {
+  INJECT("condattr_setclock")
   cond_clock = (int) c;
-  REAL(int, pthread_condattr_setclock, pthread_condattr_t*, clockid_t) return real(a, c);
+  REAL(int, pthread_condattr_setclock, pthread_condattr_t*, clockid_t) int r = real(a, c); if (r == 0 && c == CLOCK_MONOTONIC) cfg_applied = 1; return r;
 }
 int pthread_cond_timedwait(pthread_cond_t* c, pthread_mutex_t* m, const struct timespec* ts) {
   if (scripted) { S.timedwait_called++; S.abstime = *ts; return S.code; }
@@ -144,15 +174,38 @@ int pthread_barrier_wait(pthread_barrier_t* b) {
   if (scripted) return S.code;
   REAL(int, pthread_barrier_wait, pthread_barrier_t*) return real(b);
 }
+/* CLOCK_MONOTONIC_COARSE: resolution coarse_res_ns (-1 = clock_getres fails), reads the precise clock
+ * minus coarse_lag_ns (a coarse clock lags the precise one by up to a tick) */
+static long coarse_res_ns = 4000000; static uint64_t coarse_lag_ns;
+EARLY int clock_getres(clockid_t id, struct timespec* ts) {
+  if (id == CLOCK_MONOTONIC_COARSE) {
+    if (coarse_res_ns < 0) { errno = EINVAL; return -1; }
+    ts->tv_sec = coarse_res_ns / 1000000000; ts->tv_nsec = coarse_res_ns % 1000000000; return 0;
+  }
+  return (int) syscall(SYS_clock_getres, id, ts);
+}
 EARLY int clock_gettime(clockid_t id, struct timespec* ts) {
-  if (scripted) { S.clk_asked = (int) id; ts->tv_sec = (time_t) S.now_sec; ts->tv_nsec = (long) S.now_nsec; return 0; }
+  if (scripted) {
+    S.clk_asked = (int) id; ts->tv_sec = (time_t) S.now_sec; ts->tv_nsec = (long) S.now_nsec;
+    if (id == CLOCK_MONOTONIC_COARSE) {
+      uint64_t t = S.now_sec * 1000000000ull + S.now_nsec; t = t > coarse_lag_ns ? t - coarse_lag_ns : 0;
+      ts->tv_sec = (time_t)(t / 1000000000ull); ts->tv_nsec = (long)(t % 1000000000ull);
+    }
+    return 0;
+  }
+  if (id == CLOCK_MONOTONIC_COARSE) {
+    int r = (int) syscall(SYS_clock_gettime, CLOCK_MONOTONIC, ts);
+    uint64_t t = (uint64_t) ts->tv_sec * 1000000000ull + ts->tv_nsec; t = t > coarse_lag_ns ? t - coarse_lag_ns : 0;
+    ts->tv_sec = (time_t)(t / 1000000000ull); ts->tv_nsec = (long)(t % 1000000000ull);
+    return r;
+  }
   return (int) syscall(SYS_clock_gettime, id, ts);
 }
 /* abort-unless-zero family */
 #define MUST1(name, T) int name(T* x) { if (scripted) return S.code; REAL(int, name, T*) return real(x); }
 MUST1(pthread_cond_signal, pthread_cond_t)
 MUST1(pthread_cond_broadcast, pthread_cond_t)
-MUST1(pthread_cond_destroy, pthread_cond_t)
+int pthread_cond_destroy(pthread_cond_t* x) { if (scripted) return S.code; REAL(int, pthread_cond_destroy, pthread_cond_t*) int r = real(x); if (r == 0) live_objs--; return r; }
 MUST1(pthread_rwlock_rdlock, pthread_rwlock_t)
 MUST1(pthread_rwlock_wrlock, pthread_rwlock_t)
 MUST1(pthread_rwlock_unlock, pthread_rwlock_t)
@@ -174,6 +227,7 @@ int pthread_setspecific(pthread_key_t k, const void* v) {
 static uv_mutex_t mtx; static uv_rwlock_t rwl; static uv_sem_t sem; static uv_cond_t cnd;
 static uv_barrier_t bar; static uv_key_t key;
 static void dummy_entry(void* a) { (void) a; }
+static uv_loop_t* the_loop;
 
 /* run `call` with interposers scripted; 1 if it called abort() */
 #define GUARDED(call) ({ int aborted_ = 0; abort_armed = 1; \
@@ -229,6 +283,64 @@ int main(void) {
       printf("deadline %" PRIu64 " %" PRIu64 " clk %d condclk %d ", (uint64_t) S.abstime.tv_sec,
              (uint64_t) S.abstime.tv_nsec, S.clk_asked, cond_clock);
       print_out(ab, rc); printf("\n");
+    } else if (!strcmp(w[0], "init") && n == 4 && is_int(w[3])) {
+      static const char* calls[] = {"none", "condattr_init", "condattr_setclock", "cond_init", "condattr_destroy", "mutexattr_init",
+        "mutexattr_settype", "mutex_init", "mutexattr_destroy", "rwlock_init", "barrier_init", "sem_init", "attr_init", "attr_setstacksize", 0};
+      const char* cn = 0; for (int i = 0; calls[i]; i++) if (!strcmp(calls[i], w[2])) cn = calls[i];
+      if (!cn) { printf("bad-op\n"); continue; }
+      uv_cond_t ic; uv_mutex_t im; uv_rwlock_t ir; uv_barrier_t ib; uv_sem_t is; uv_thread_t it; uv_thread_options_t opt;
+      int kind = !strcmp(w[1], "cond") ? 1 : !strcmp(w[1], "rmutex") ? 2 : !strcmp(w[1], "mutex") ? 3 : !strcmp(w[1], "rwlock") ? 4 :
+                 !strcmp(w[1], "barrier") ? 5 : !strcmp(w[1], "sem") ? 6 : !strcmp(w[1], "thread") ? 7 : 0;
+      if (!kind) { printf("bad-op\n"); continue; }
+      if (kind == 6) { uv_sem_t warm; if (uv_sem_init(&warm, 0) == 0) uv_sem_destroy(&warm); }   /* uv_once(glibc version) out of the way */
+      inj_rc = atoi(w[3]); inj_hits = 0; live_objs = 0; cfg_applied = 0;
+      inj_name = strcmp(cn, "none") ? cn : 0;
+      ab = 0; abort_armed = 1;
+      if (sigsetjmp(abort_jb, 1) == 0) {
+        switch (kind) {
+          case 1: rc = uv_cond_init(&ic); break;
+          case 2: rc = uv_mutex_init_recursive(&im); break;
+          case 3: rc = uv_mutex_init(&im); break;
+          case 4: rc = uv_rwlock_init(&ir); break;
+          case 5: rc = uv_barrier_init(&ib, 2); break;
+          case 6: rc = uv_sem_init(&is, 1); break;
+          case 7: opt.flags = UV_THREAD_HAS_STACK_SIZE; opt.stack_size = 65536; S.pagesize = 4096; S.stackmin = 16384; S.rlim_ok = 1;
+                  S.rlim_cur = 8 << 20; S.create_rc = 0; S.create_called = 0; scripted = 1; rc = uv_thread_create_ex(&it, &opt, dummy_entry, NULL); scripted = 0; break;
+        }
+      } else { scripted = 0; ab = 1; }
+      abort_armed = 0; inj_name = 0;
+      print_out(ab, rc);
+      if (kind == 7) printf(" created %d\n", ab ? 0 : S.create_called);
+      else if (kind <= 2) printf(" live %d cfg %d\n", live_objs, cfg_applied);
+      else printf(" live %d\n", live_objs);
+      if (!ab && rc == 0) switch (kind) {
+        case 1: uv_cond_destroy(&ic); break; case 2: case 3: uv_mutex_destroy(&im); break; case 4: uv_rwlock_destroy(&ir); break;
+        case 5: uv_barrier_destroy(&ib); break; case 6: uv_sem_destroy(&is); break; }
+    } else if (!strcmp(w[0], "condfault") && n == 3 && is_int(w[1]) && is_nat(w[2])) {
+      /* behavioural: a condvar uv_cond_init returned 0 for times out no earlier than the timeout on the real monotonic clock */
+      uv_cond_t ic; uv_mutex_t im; uint64_t tmo = strtoull(w[2], 0, 10); struct timespec a, b;
+      inj_rc = atoi(w[1]); inj_name = inj_rc ? "condattr_setclock" : 0;
+      rc = uv_cond_init(&ic); inj_name = 0;
+      if (rc) { printf("condfault ret %d\n", rc); continue; }
+      uv_mutex_init(&im); uv_mutex_lock(&im);
+      int r = 0; uint64_t el = 0;
+      for (int k = 0; k < 5 && r == 0; k++) {      /* r == 0: spurious wake-up, try again */
+        syscall(SYS_clock_gettime, CLOCK_MONOTONIC, &a); r = uv_cond_timedwait(&ic, &im, tmo); syscall(SYS_clock_gettime, CLOCK_MONOTONIC, &b);
+        el = (uint64_t)(b.tv_sec - a.tv_sec) * 1000000000ull + b.tv_nsec - a.tv_nsec;
+      }
+      uv_mutex_unlock(&im); uv_mutex_destroy(&im); uv_cond_destroy(&ic);
+      printf("condfault ret 0 timedwait %d not_early %d\n", r, el >= tmo);
+    } else if (!strcmp(w[0], "coarse") && n == 3 && (is_nat(w[1]) || !strcmp(w[1], "fail")) && is_nat(w[2])) {
+      coarse_res_ns = !strcmp(w[1], "fail") ? -1 : atol(w[1]); coarse_lag_ns = strtoull(w[2], 0, 10); printf("ok\n");
+    } else if (!strcmp(w[0], "fastclock") && n == 3 && is_nat(w[1]) && is_nat(w[2])) {
+      if (!the_loop) { the_loop = malloc(sizeof *the_loop); if (uv_loop_init(the_loop)) { printf("loop-init-failed\n"); return 3; } }
+      S.now_sec = strtoull(w[1], 0, 10); S.now_nsec = strtoull(w[2], 0, 10); S.clk_asked = -1;
+      scripted = 1; uv_update_time(the_loop); scripted = 0;
+      printf("fastclock clk %d ms %" PRIu64 "\n", S.clk_asked, uv_now(the_loop));
+    } else if (!strcmp(w[0], "hrtime") && n == 3 && is_nat(w[1]) && is_nat(w[2])) {
+      S.now_sec = strtoull(w[1], 0, 10); S.now_nsec = strtoull(w[2], 0, 10); S.clk_asked = -1;
+      scripted = 1; uint64_t v = uv_hrtime(); scripted = 0;
+      printf("hrtime %" PRIu64 " clk %d\n", v, S.clk_asked);
     } else if (!strcmp(w[0], "initattr") && n == 2) {
       if (!strcmp(w[1], "rwlock")) { uv_rwlock_t x; last_rwlock_kind = -2; if (uv_rwlock_init(&x)) { printf("init-failed\n"); continue; } uv_rwlock_destroy(&x); printf("rwlock-kind %d\n", last_rwlock_kind); }
       else if (!strcmp(w[1], "mutex")) { uv_mutex_t x; last_mutex_type = -2; if (uv_mutex_init(&x)) { printf("init-failed\n"); continue; } uv_mutex_destroy(&x); printf("mutex-type %d\n", last_mutex_type); }
@@ -264,6 +376,7 @@ int main(void) {
     }
     fflush(stdout);
   }
+  if (the_loop) { uv_loop_close(the_loop); free(the_loop); }
   return 0;
 }
 
@@ -713,6 +826,7 @@ int main(void) {
     else if (!strcmp(w[0], "longwait") && n == 3 && is_nat(w[1]) && is_nat(w[2])) t_longwait(strtoull(w[1], 0, 10), atoi(w[2]));
     else if (!strcmp(w[0], "create") && n == 3 && is_nat(w[1]) && is_nat(w[2])) t_create(atoi(w[1]), (size_t) strtoull(w[2], 0, 10));
     else if (!strcmp(w[0], "create-rlim") && n == 2 && (is_nat(w[1]) || !strcmp(w[1], "inf"))) t_create_rlim(w[1]);
+    else if (!strcmp(w[0], "loopinit") && n == 1) { static uv_loop_t rl; static int done; int r = 0; if (!done) { r = uv_loop_init(&rl); done = 1; } uv_update_time(&rl); printf("loopinit %d\n", r); }
     else if (!strcmp(w[0], "env") && n == 1) printf("env pagesize %d stackmin %ld\n", getpagesize(), (long) PTHREAD_STACK_MIN);
     else printf("bad-op\n");
   }
